@@ -32,7 +32,10 @@ Ev == T.events[l]
 WantSem == T.sem
 
 DummyD == [k |-> "Count", tr |-> "id"]
-Absent == [live |-> FALSE, d |-> DummyD, c |-> [k |-> "Count", e |-> Q(0)], oid |-> 0, mut |-> FALSE]
+(* d  : the descriptor as far as the object itself can know it (after a JSON round trip: Forget - below an empty  *)
+(*      sparse container only the child's kind)                                                              *)
+(* dt : the true structure (what the object was built from), kept as a ghost                                *)
+Absent == [live |-> FALSE, d |-> DummyD, dt |-> DummyD, c |-> [k |-> "Count", e |-> Q(0)], oid |-> 0, mut |-> FALSE]
 
 Init == /\ tid \in 1..Len(Traces)
         /\ l = 1
@@ -113,7 +116,7 @@ Budget == 4096
 (*         "pure"   : no slot may change                                    *)
 (*         "drop"   : the slot disappears                                   *)
 X(tgt, exc, c, d, mut, fresh, how) ==
-  [tgt |-> tgt, exc |-> exc, may |-> FALSE, c |-> c, d |-> d, mut |-> mut, fresh |-> fresh, how |-> how]
+  [tgt |-> tgt, exc |-> exc, may |-> FALSE, c |-> c, d |-> d, dt |-> d, mut |-> mut, fresh |-> fresh, how |-> how]
 
 Ones(n) == [i \in 1..n |-> Q(1)]
 NumpyWs == IF Ev.wf = "one" THEN Ones(Len(Ev.rows))
@@ -138,18 +141,23 @@ Expect ==
          LET p == pool[Ev.s] IN
          X(Ev.s, SharedFillable(p.d), FoldFill(p.c, p.d, Ev.rows, NumpyWs), p.d, p.mut, FALSE, "strip")
     [] op \in {"Add", "Combine"} ->
-         LET a == pool[Ev.a] b == pool[Ev.b] ok == CompatD(a.d, b.d) IN
-         X(Ev.t, ~ok, IF ok THEN Merge(a.c, b.c) ELSE a.c, a.d, a.mut /\ b.mut, TRUE, "det")
+         (* the merge MUST be refused when even what the operands know about themselves conflicts (CompatD on d),
+            MUST succeed when their true structures agree (CompatD on dt), and in between - a reloaded operand whose
+            empty sparse parts hide a difference that other parts reveal - it may do either *)
+         LET a == pool[Ev.a] b == pool[Ev.b] conflict == ~CompatD(a.d, b.d) agree == CompatD(a.dt, b.dt) IN
+         [X(Ev.t, conflict, IF agree THEN Merge(a.c, b.c) ELSE a.c, a.d, a.mut /\ b.mut, TRUE, IF agree THEN "det" ELSE "free")
+            EXCEPT !.may = ~conflict /\ ~agree, !.dt = a.dt]
     [] op = "IAdd" ->
-         LET a == pool[Ev.a] b == pool[Ev.b] ok == CompatD(a.d, b.d) IN
-         X(Ev.a, ~ok, IF ok THEN Merge(a.c, b.c) ELSE a.c, a.d, a.mut /\ b.mut, FALSE, "det")
+         LET a == pool[Ev.a] b == pool[Ev.b] conflict == ~CompatD(a.d, b.d) agree == CompatD(a.dt, b.dt) IN
+         [X(Ev.a, conflict, IF agree THEN Merge(a.c, b.c) ELSE a.c, a.d, a.mut /\ b.mut, FALSE, IF agree THEN "det" ELSE "free")
+            EXCEPT !.may = ~conflict /\ ~agree, !.dt = a.dt]
     [] op = "Mul" ->
          (* a transformed Count cannot be rescaled: for f > 0 the call must raise; for f <= 0 / NaN
             the result is the empty aggregator, and raising is tolerated as well *)
          LET a == pool[Ev.a] sq == HasSqCount(a.d) pos == Gt(Ev.f, Q(0)) IN
          [X(Ev.t, sq /\ pos, IF sq /\ pos THEN a.c ELSE Scale(a.c, a.d, Ev.f), a.d, a.mut, TRUE, "det")
-            EXCEPT !.may = sq /\ ~pos]
-    [] op = "Zero" -> LET a == pool[Ev.a] IN X(Ev.t, FALSE, Zero(a.d), a.d, a.mut, TRUE, "det")
+            EXCEPT !.may = sq /\ ~pos, !.dt = a.dt]
+    [] op = "Zero" -> LET a == pool[Ev.a] IN [X(Ev.t, FALSE, Zero(a.d), a.d, a.mut, TRUE, "det") EXCEPT !.dt = a.dt]
     [] op = "Histogram" -> LET a == pool[Ev.a] IN X(Ev.t, FALSE, Histo(a.c), HistoD(a.d), a.mut, TRUE, "det")
     [] op = "StackBuild" ->
          LET cs == [i \in DOMAIN Ev.srcs |-> pool[Ev.srcs[i]].c]
@@ -161,11 +169,11 @@ Expect ==
          LET a == pool[Ev.a] b == pool[Ev.b] ok == CompatD(a.d, b.d) IN
          X(Ev.t, ~ok, IF ok THEN FractionBuilt(a.c, b.c) ELSE a.c,
            [k |-> "Fraction", q |-> "?", nm |-> "", fid |-> "", form |-> "none", value |-> a.d], FALSE, TRUE, "det")
-    [] op = "Copy" -> LET a == pool[Ev.a] IN X(Ev.t, FALSE, a.c, a.d, a.mut, TRUE, "det")
-    [] op = "Pickle" -> LET a == pool[Ev.a] IN X(Ev.t, FALSE, a.c, a.d, a.mut, TRUE, "det")
+    [] op = "Copy" -> LET a == pool[Ev.a] IN [X(Ev.t, FALSE, a.c, a.d, a.mut, TRUE, "det") EXCEPT !.dt = a.dt]
+    [] op = "Pickle" -> LET a == pool[Ev.a] IN [X(Ev.t, FALSE, a.c, a.d, a.mut, TRUE, "det") EXCEPT !.dt = a.dt]
     [] op \in {"Reload", "Immutable"} ->
          (* the reloaded container knows what the document says: Forget *)
-         LET a == pool[Ev.a] IN X(Ev.t, FALSE, a.c, Forget(a.d, a.c), FALSE, TRUE, "det")
+         LET a == pool[Ev.a] IN [X(Ev.t, FALSE, a.c, Forget(a.d, a.c), FALSE, TRUE, "det") EXCEPT !.dt = a.dt]
     [] op \in {"Eq", "Read", "Doc", "CatView", "Grid2D"} -> X(0, FALSE, Absent.c, DummyD, FALSE, FALSE, "pure")
     [] op = "View" ->
          [X(0, FALSE, Absent.c, DummyD, FALSE, FALSE, "pure")
@@ -216,10 +224,10 @@ EqFlags(E) ==
 Clauses(E) ==
   LET tgt == E.tgt
       changedOthers == ChSlots \ {tgt}
-      shapeOK == \/ ~Ok \/ E.how \in {"pure", "drop"} \/ E.exc
+      shapeOK == \/ ~Ok \/ E.how \in {"pure", "drop", "free"} \/ E.exc
                  \/ (tgt \in ChSlots => ShapeOK(ObsC(tgt), E.d)) /\ (tgt \notin ChSlots => ShapeOK(pool[tgt].c, E.d))
       stateOK ==
-        \/ ~Ok \/ E.exc \/ E.how \in {"pure", "drop"} \/ ~shapeOK
+        \/ ~Ok \/ E.exc \/ E.how \in {"pure", "drop", "free"} \/ ~shapeOK
         \/ IF E.how = "strip"
            THEN Strip(ObsC(tgt)) = Strip(E.c) /\ ZeroBinsEmpty(ObsC(tgt), E.d)
            ELSE ObsC(tgt) = E.c
@@ -238,7 +246,7 @@ Clauses(E) ==
                  \/ IF E.fresh THEN ObsOid(tgt) \notin LiveOids ELSE ObsOid(tgt) = pool[tgt].oid,
     noshare  |-> T.sharing \/ Ev.sh = <<>>,
     wf       |-> (* bookkeeping invariants of the target and of every other slot that changed *)
-                 /\ \/ ~Ok \/ ~shapeOK \/ E.exc \/ E.how \in {"pure", "drop"} \/ overBudget
+                 /\ \/ ~Ok \/ ~shapeOK \/ E.exc \/ E.how \in {"pure", "drop", "free"} \/ overBudget
                     \/ WF(ObsC(tgt), E.d)
                  /\ \A s \in changedOthers : (pool[s].live /\ ShapeOK(ObsC(s), pool[s].d)) => WF(ObsC(s), pool[s].d),
     flags    |-> \/ ~Ok
@@ -256,7 +264,7 @@ Clauses(E) ==
                            LET r == Parse(Ev.doc) IN
                            r.st = "valid" => DocEq(Ev.redoc, ToDoc(r.c, r.d))
                       [] OTHER -> TRUE,
-    sem      |-> \/ ~WantSem \/ ~Ok \/ E.exc \/ ~shapeOK \/ overBudget \/ E.how \in {"pure", "drop"}
+    sem      |-> \/ ~WantSem \/ ~Ok \/ E.exc \/ ~shapeOK \/ overBudget \/ E.how \in {"pure", "drop", "free"}
                  \/ Ev.op \in {"Histogram", "StackBuild", "FractionBuild"}
                  \/ IF E.how = "strip" \/ T.strip THEN Strip(ObsC(tgt)) = Strip(Sem(E.d, BagAfter(E)[tgt]))
                     ELSE ObsC(tgt) = Sem(E.d, BagAfter(E)[tgt]) ]
@@ -268,7 +276,7 @@ Clauses(E) ==
    stays unexplained and is reported as a violation. *)
 DevFor(E, cl) ==
   LET op == Ev.op IN
-  IF op = "IAdd" /\ cl = "unchanged" /\ E.exc /\ ~Ok
+  IF op = "IAdd" /\ cl = "unchanged" /\ (E.exc \/ E.may) /\ ~Ok
      /\ RootCompat(pool[Ev.a].d, pool[Ev.b].d) /\ ChSlots \subseteq {Ev.a}
      /\ {Ev.raw[i] : i \in DOMAIN Ev.raw} \subseteq {Ev.a}
     THEN "Dev_IAddNestedNonAtomic"
@@ -298,14 +306,14 @@ Report(E, cl) ==
                  obs |-> IF cl \in {"state", "sem", "wf", "shape"} /\ E.tgt # 0 THEN <<ObsC(E.tgt)>> ELSE <<>>]))
 
 (* after these failures the rest of the trace cannot be interpreted        *)
-Fatal(F) == ~F.shape \/ ~F.budget \/ (Ok /\ ~F.outcome)
+Fatal(F) == ~F.shape \/ ~F.budget \/ (Ok /\ ~F.outcome) \/ (Ok /\ Expect.how = "free")
 
 PoolAfter(E) ==
   [s \in 1..NS |->
      IF E.how = "drop" /\ s = E.tgt /\ Ok THEN Absent
      ELSE LET p == pool[s]
               q == IF s \in ChSlots THEN [p EXCEPT !.live = TRUE, !.c = ChOf(s).c, !.oid = ChOf(s).oid] ELSE p
-          IN IF s = E.tgt /\ Ok /\ ~E.exc THEN [q EXCEPT !.live = TRUE, !.d = E.d, !.mut = E.mut] ELSE q]
+          IN IF s = E.tgt /\ Ok /\ ~E.exc THEN [q EXCEPT !.live = TRUE, !.d = E.d, !.dt = E.dt, !.mut = E.mut] ELSE q]
 
 Next ==
   /\ l <= Len(T.events)
